@@ -23,10 +23,15 @@ the bottom layer z = 0.
                                cells, never kept floating ones) — with the refutation witnesses at the end this
                                pins down what the defect was
 
-Not proved (decided by K/S on the real code only): "no background region enclosed away from the sides and the
-top" after connect_holes_and_structures — `connect_slice` is a heuristic; see props/C23.json `not_shown`.
+  C23_connectHoles_no_enclosed every background cell of the result of connect_holes_and_structures is connected through
+                               background to the top layer or a side face (any shape, any design).  Proof: loop invariant
+                               of the second (air) loop — "all background in layers ≥ ii is open" — carried from the top
+                               layer down (`airStep_inv`, using what `connect_slice` guarantees about its bounded in-slice
+                               floods, FdtdxLemmas/C23Slice.lean), then the final clean-up only opens more
+  C23_connectHoles_spec        both halves of the second clause together
 -/
 import FdtdxLemmas.C23Flood
+import FdtdxLemmas.C23Slice
 
 namespace Fdtdx.C23
 
@@ -251,6 +256,361 @@ theorem C23_connectHoles_no_floating (s : Shape) (m : Tab) (i j k : Nat)
     (h : look (connectHoles s m) i j k = true) : Conn s (look (connectHoles s m)) i j k :=
   C23_removeFloating_no_floating s (connectPre s m) i j k h
 
+/-! ### connect_holes_and_structures leaves no enclosed background -/
+
+/-- every background cell of `m` in a layer `≥ lo` is connected through background to the top or to a side -/
+def InvAir (s : Shape) (lo : Nat) (m : Tab) : Prop :=
+  ∀ i j k, inb s i j k = true → lo ≤ k → look m i j k = false → OpenAir s (look m) i j k
+
+/-- one iteration of the second loop of `connect_holes_and_structures` (index `ii` counts down from nz to 1) -/
+def airStep (s : Shape) (ii : Nat) (m : Tab) : Tab :=
+  let s2 : Shape := ⟨s.nx, s.ny, 1⟩
+  let cl := fun (k : Nat) => min k (s.nz - 1)
+  let lower := if ii = s.nz then onesT s2 else notT s2 (sliceZ s2 m (cl (ii + 1)))
+  let r := connectSlice s2 lower (notT s2 (sliceZ s2 m (cl ii))) (notT s2 (sliceZ s2 m (ii - 1)))
+    (sliceZ s2 (airConnection s m) (ii - 1))
+  setZ s (setZ s m ii (notT s2 r.1)) (ii - 1) (notT s2 r.2)
+
+theorem pass2_succ (s : Shape) (i : Nat) (m : Tab) : pass2 s (i + 1) m = pass2 s i (airStep s (i + 1) m) := rfl
+
+theorem inb2 (s : Shape) (x y : Nat) :
+    inb ⟨s.nx, s.ny, 1⟩ x y 0 = true ↔ x < s.nx ∧ y < s.ny := by
+  simp [inb]
+
+theorem V_airslice (s : Shape) (m : Tab) (kk x y : Nat) :
+    V (notT ⟨s.nx, s.ny, 1⟩ (sliceZ ⟨s.nx, s.ny, 1⟩ m kk)) x y = true ↔ x < s.nx ∧ y < s.ny ∧ look m x y kk = false := by
+  unfold V notT sliceZ
+  rw [look_tab, look_tab]
+  simp only [Bool.and_eq_true, Bool.not_eq_true', Bool.and_eq_false_iff, inb2]
+  constructor
+  · rintro ⟨h, h1 | h1⟩
+    · exact absurd ((inb2 s x y).mpr h) (by simp [h1])
+    · exact ⟨h.1, h.2, h1⟩
+  · rintro ⟨h1, h2, h3⟩; exact ⟨⟨h1, h2⟩, Or.inr h3⟩
+
+theorem V_slice (s : Shape) (t : Tab) (kk x y : Nat) :
+    V (sliceZ ⟨s.nx, s.ny, 1⟩ t kk) x y = true ↔ x < s.nx ∧ y < s.ny ∧ look t x y kk = true := by
+  unfold V sliceZ
+  rw [look_tab]
+  simp only [Bool.and_eq_true, inb2, and_assoc]
+
+theorem look_not2 (s : Shape) (t : Tab) (x y : Nat) (hx : x < s.nx) (hy : y < s.ny) :
+    look (notT ⟨s.nx, s.ny, 1⟩ t) x y 0 = !V t x y := by
+  unfold notT V; rw [look_tab]; simp [inb, hx, hy]
+
+section airstep
+variable (s : Shape) (ii : Nat) (m : Tab)
+
+/-- the two slices produced by `connect_slice` in this iteration -/
+def stepR : Tab × Tab :=
+  connectSlice ⟨s.nx, s.ny, 1⟩
+    (if ii = s.nz then onesT ⟨s.nx, s.ny, 1⟩ else notT ⟨s.nx, s.ny, 1⟩ (sliceZ ⟨s.nx, s.ny, 1⟩ m (min (ii + 1) (s.nz - 1))))
+    (notT ⟨s.nx, s.ny, 1⟩ (sliceZ ⟨s.nx, s.ny, 1⟩ m (min ii (s.nz - 1))))
+    (notT ⟨s.nx, s.ny, 1⟩ (sliceZ ⟨s.nx, s.ny, 1⟩ m (ii - 1)))
+    (sliceZ ⟨s.nx, s.ny, 1⟩ (airConnection s m) (ii - 1))
+
+theorem airStep_eq : airStep s ii m =
+    setZ s (setZ s m ii (notT ⟨s.nx, s.ny, 1⟩ (stepR s ii m).1)) (ii - 1) (notT ⟨s.nx, s.ny, 1⟩ (stepR s ii m).2) := rfl
+
+/-- how the matrix changes: layer ii-1 := ¬ upper'', layer ii := ¬ middle', everything else untouched -/
+theorem look_airStep (_hii : 1 ≤ ii) (i j k : Nat) (hin : inb s i j k = true) :
+    look (airStep s ii m) i j k =
+      if k = ii - 1 then !V (stepR s ii m).2 i j else if k = ii then !V (stepR s ii m).1 i j else look m i j k := by
+  have hb := hin
+  simp only [inb, Bool.and_eq_true, decide_eq_true_eq] at hb
+  rw [airStep_eq]
+  unfold setZ
+  rw [look_tab, hin, Bool.true_and]
+  by_cases h1 : k = ii - 1
+  · rw [if_pos h1, if_pos h1, look_not2 s _ i j hb.1.1 hb.1.2]
+  · rw [if_neg h1, if_neg h1, look_tab, hin, Bool.true_and]
+    by_cases h2 : k = ii
+    · rw [if_pos h2, if_pos h2, look_not2 s _ i j hb.1.1 hb.1.2]
+    · rw [if_neg h2, if_neg h2]
+
+end airstep
+
+theorem adj_of_adj4 {x' y' x y : Nat} (k : Nat) (h : Adj4 x' y' x y) : Adj x' y' k x y k := by
+  unfold Adj4 at h; unfold Adj; omega
+
+theorem openAir_air {s : Shape} {M : Img} {i j k : Nat} (h : OpenAir s M i j k) : M i j k = false := by
+  have := h.mask; simpa using this
+
+section step
+
+abbrev S2 (s : Shape) : Shape := ⟨s.nx, s.ny, 1⟩
+abbrev sLw (s : Shape) (ii : Nat) (m : Tab) : Tab :=
+  if ii = s.nz then onesT (S2 s) else notT (S2 s) (sliceZ (S2 s) m (min (ii + 1) (s.nz - 1)))
+abbrev sMd (s : Shape) (ii : Nat) (m : Tab) : Tab := notT (S2 s) (sliceZ (S2 s) m ii)
+abbrev sUp (s : Shape) (ii : Nat) (m : Tab) : Tab := notT (S2 s) (sliceZ (S2 s) m (ii - 1))
+abbrev sSv (s : Shape) (ii : Nat) (m : Tab) : Tab := sliceZ (S2 s) (airConnection s m) (ii - 1)
+
+variable {s : Shape} {ii : Nat} {m : Tab}
+
+/-- slices handed to `connect_slice` when `1 ≤ ii ≤ nz - 1` -/
+theorem stepR_eq (h2 : ii + 1 ≤ s.nz) : stepR s ii m =
+    (csMiddle' (S2 s) (sLw s ii m) (sMd s ii m) (sUp s ii m) (sSv s ii m),
+     csUpper'' (S2 s) (sLw s ii m) (sMd s ii m) (sUp s ii m) (sSv s ii m)) := by
+  unfold stepR
+  rw [connectSlice_eq]
+  have : min ii (s.nz - 1) = ii := by omega
+  rw [this]
+
+theorem hS_step (x y : Nat) (h : V (sSv s ii m) x y = true) : V (sUp s ii m) x y = true := by
+  rw [V_slice] at h
+  rw [V_airslice]
+  refine ⟨h.1, h.2.1, ?_⟩
+  exact openAir_air ((C23_airConnection_eq_reachable s m x y (ii - 1)).mp h.2.2).2
+
+theorem hU_step (x y : Nat) (h : V (sUp s ii m) x y = true) : inb (S2 s) x y 0 = true := by
+  rw [V_airslice] at h
+  exact (inb2 s x y).mpr ⟨h.1, h.2.1⟩
+
+/-- open background is never filled in -/
+theorem open_stays_air (h1 : 1 ≤ ii) (h2 : ii + 1 ≤ s.nz) {x y k : Nat} (hin : inb s x y k = true)
+    (hop : OpenAir s (look m) x y k) : look (airStep s ii m) x y k = false := by
+  have hb := hin
+  simp only [inb, Bool.and_eq_true, decide_eq_true_eq] at hb
+  have hair := openAir_air hop
+  rw [look_airStep s ii m h1 x y k hin, stepR_eq h2]
+  by_cases hk1 : k = ii - 1
+  · rw [if_pos hk1]
+    subst hk1
+    have hsv : V (sSv s ii m) x y = true := by
+      rw [V_slice]
+      exact ⟨hb.1.1, hb.1.2, (C23_airConnection_eq_reachable s m x y (ii - 1)).mpr ⟨hin, hop⟩⟩
+    rw [save_sub_upper'' hS_step hU_step hsv]; rfl
+  · rw [if_neg hk1]
+    by_cases hk2 : k = ii
+    · rw [if_pos hk2]
+      subst hk2
+      have : V (csMiddle' (S2 s) (sLw s k m) (sMd s k m) (sUp s k m) (sSv s k m)) x y = true :=
+        (middle'_iff hS_step hU_step x y).mpr
+          ⟨(inb2 s x y).mpr ⟨hb.1.1, hb.1.2⟩, Or.inl ((V_airslice s m k x y).mpr ⟨hb.1.1, hb.1.2, hair⟩)⟩
+      rw [this]; rfl
+    · rw [if_neg hk2]; exact hair
+
+/-- … and stays open -/
+theorem open_preserved (h1 : 1 ≤ ii) (h2 : ii + 1 ≤ s.nz) {x y k : Nat} (hop : OpenAir s (look m) x y k) :
+    OpenAir s (look (airStep s ii m)) x y k := by
+  unfold OpenAir at hop ⊢
+  induction hop with
+  | base hb hm hs =>
+    have := open_stays_air h1 h2 hb (.base hb hm hs)
+    exact .base hb (by simp [this]) hs
+  | step hprev hadj hb hm ih =>
+    have := open_stays_air h1 h2 hb (.step hprev hadj hb hm)
+    exact .step ih hadj hb (by simp [this])
+
+/-- the background of layer `ii` after the iteration is open -/
+theorem layer_ii_open (h1 : 1 ≤ ii) (h2 : ii + 1 ≤ s.nz) (hinv : InvAir s ii m) {x y : Nat}
+    (hin : inb s x y ii = true) (hair : look (airStep s ii m) x y ii = false) :
+    OpenAir s (look (airStep s ii m)) x y ii := by
+  have hb := hin
+  simp only [inb, Bool.and_eq_true, decide_eq_true_eq] at hb
+  have hmask : (!look (airStep s ii m) x y ii) = true := by simp [hair]
+  have hne : ii ≠ ii - 1 := by omega
+  have hl := look_airStep s ii m h1 x y ii hin
+  rw [if_neg hne, if_pos rfl, stepR_eq h2] at hl
+  rw [hl] at hair
+  have hmid : V (csMiddle' (S2 s) (sLw s ii m) (sMd s ii m) (sUp s ii m) (sSv s ii m)) x y = true := by
+    simpa using hair
+  rcases ((middle'_iff hS_step hU_step x y).mp hmid).2 with hM | hbl
+  · rw [V_airslice] at hM
+    exact open_preserved h1 h2 (hinv x y ii hin (Nat.le_refl _) hM.2.2)
+  · obtain ⟨_, _, hcase⟩ := byLower_spec hS_step hU_step hbl
+    rcases hcase with hdil | hlow
+    · rcases (dilXY_iff _ x y).mp hdil with hself | ⟨x', y', hadj, hn⟩
+      · have hM : V (sMd s ii m) x y = true := hself
+        rw [V_airslice] at hM
+        exact open_preserved h1 h2 (hinv x y ii hin (Nat.le_refl _) hM.2.2)
+      · have hM : V (sMd s ii m) x' y' = true := hn
+        rw [V_airslice] at hM
+        have hin' : inb s x' y' ii = true := by simp [inb, hM.1, hM.2.1, hb.2]
+        exact .step (open_preserved h1 h2 (hinv x' y' ii hin' (Nat.le_refl _) hM.2.2)) (adj_of_adj4 ii hadj) hin hmask
+    · have hnz : ¬ ii = s.nz := by omega
+      simp only [sLw, if_neg hnz] at hlow
+      rw [V_airslice] at hlow
+      by_cases hlast : ii + 1 ≤ s.nz - 1
+      · have hmin : min (ii + 1) (s.nz - 1) = ii + 1 := by omega
+        rw [hmin] at hlow
+        have hin' : inb s x y (ii + 1) = true := by
+          simp only [inb, Bool.and_eq_true, decide_eq_true_eq]; exact ⟨⟨hb.1.1, hb.1.2⟩, by omega⟩
+        exact .step (open_preserved h1 h2 (hinv x y (ii + 1) hin' (by omega) hlow.2.2))
+          (Or.inr (Or.inr ⟨rfl, rfl, Or.inl rfl⟩)) hin hmask
+      · have hmin : min (ii + 1) (s.nz - 1) = ii := by omega
+        rw [hmin] at hlow
+        exact open_preserved h1 h2 (hinv x y ii hin (Nat.le_refl _) hlow.2.2)
+
+/-- **one iteration of the air loop establishes the next layer**: if all background in layers ≥ ii is open before, all
+background in layers ≥ ii-1 is open after. -/
+theorem airStep_inv (h1 : 1 ≤ ii) (h2 : ii + 1 ≤ s.nz) (hinv : InvAir s ii m) : InvAir s (ii - 1) (airStep s ii m) := by
+  -- G: the cell of layer ii-1 is open after the iteration
+  have hup : ∀ x y, x < s.nx → y < s.ny →
+      (look (airStep s ii m) x y (ii - 1) = false ↔
+        V (csUpper'' (S2 s) (sLw s ii m) (sMd s ii m) (sUp s ii m) (sSv s ii m)) x y = true) := by
+    intro x y hx hy
+    have hin : inb s x y (ii - 1) = true := by
+      simp only [inb, Bool.and_eq_true, decide_eq_true_eq]; exact ⟨⟨hx, hy⟩, by omega⟩
+    have hl := look_airStep s ii m h1 x y (ii - 1) hin
+    rw [if_pos rfl, stepR_eq h2] at hl
+    rw [hl]; simp
+  have hcp3 : ∀ x y, V (csCp3 (S2 s) (sLw s ii m) (sMd s ii m) (sUp s ii m) (sSv s ii m)) x y = true →
+      OpenAir s (look (airStep s ii m)) x y (ii - 1) := by
+    apply cp3_grounded hS_step hU_step (fun x y => OpenAir s (look (airStep s ii m)) x y (ii - 1))
+    · -- sources: saved (already open) cells, and cells below background of layer ii
+      intro x y h
+      have hu'' := cp3_sub_upper'' hS_step hU_step (cp0_sub_cp3 (lower := sLw s ii m) hS_step hU_step h)
+      have hxy := (inb2 s x y).mp (upper''_inb hS_step hU_step hu'')
+      unfold csCp0 at h
+      rw [V_tab] at h
+      simp only [Bool.and_eq_true, Bool.or_eq_true] at h
+      rcases h.2 with ⟨hU, hM⟩ | hsv
+      · have hM' : V (sMd s ii m) x y = true := hM
+        rw [V_airslice] at hM'
+        have hin' : inb s x y ii = true := by
+          simp only [inb, Bool.and_eq_true, decide_eq_true_eq]; exact ⟨⟨hxy.1, hxy.2⟩, by omega⟩
+        have hin : inb s x y (ii - 1) = true := by
+          simp only [inb, Bool.and_eq_true, decide_eq_true_eq]; exact ⟨⟨hxy.1, hxy.2⟩, by omega⟩
+        have habove := open_preserved h1 h2 (hinv x y ii hin' (Nat.le_refl _) hM'.2.2)
+        have hair := (hup x y hxy.1 hxy.2).mpr hu''
+        exact .step habove (Or.inr (Or.inr ⟨rfl, rfl, Or.inl (by omega)⟩)) hin (by simp [hair])
+      · have hsv' : V (sSv s ii m) x y = true := hsv
+        rw [V_slice] at hsv'
+        exact open_preserved h1 h2 ((C23_airConnection_eq_reachable s m x y (ii - 1)).mp hsv'.2.2).2
+    · -- cells that were connected by opening the cell above them
+      intro x y h
+      have hu'' := cp3_sub_upper'' hS_step hU_step (byLower_sub_cp3 hS_step hU_step h)
+      have hxy := (inb2 s x y).mp (upper''_inb hS_step hU_step hu'')
+      have hin' : inb s x y ii = true := by
+        simp only [inb, Bool.and_eq_true, decide_eq_true_eq]; exact ⟨⟨hxy.1, hxy.2⟩, by omega⟩
+      have hin : inb s x y (ii - 1) = true := by
+        simp only [inb, Bool.and_eq_true, decide_eq_true_eq]; exact ⟨⟨hxy.1, hxy.2⟩, by omega⟩
+      have hmid : V (csMiddle' (S2 s) (sLw s ii m) (sMd s ii m) (sUp s ii m) (sSv s ii m)) x y = true :=
+        (middle'_iff hS_step hU_step x y).mpr ⟨(inb2 s x y).mpr hxy, Or.inr h⟩
+      have hairii : look (airStep s ii m) x y ii = false := by
+        have hl := look_airStep s ii m h1 x y ii hin'
+        rw [if_neg (by omega), if_pos rfl, stepR_eq h2] at hl
+        rw [hl, hmid]; rfl
+      have habove := layer_ii_open h1 h2 hinv hin' hairii
+      have hair := (hup x y hxy.1 hxy.2).mpr hu''
+      exact .step habove (Or.inr (Or.inr ⟨rfl, rfl, Or.inl (by omega)⟩)) hin (by simp [hair])
+    · intro x' y' x y hg hadj hu''
+      have hxy := (inb2 s x y).mp (upper''_inb hS_step hU_step hu'')
+      have hin : inb s x y (ii - 1) = true := by
+        simp only [inb, Bool.and_eq_true, decide_eq_true_eq]; exact ⟨⟨hxy.1, hxy.2⟩, by omega⟩
+      have hair := (hup x y hxy.1 hxy.2).mpr hu''
+      exact .step hg (adj_of_adj4 (ii - 1) hadj) hin (by simp [hair])
+  intro x y k hin hk hair
+  have hb := hin
+  simp only [inb, Bool.and_eq_true, decide_eq_true_eq] at hb
+  by_cases hk1 : k = ii - 1
+  · subst hk1
+    have hu'' := (hup x y hb.1.1 hb.1.2).mp hair
+    rcases upper''_cases hS_step hU_step hu'' with hc | hv
+    · exact hcp3 x y hc
+    · obtain ⟨bi, bj, hadj, hbc⟩ := valid_nbr_cp3 hS_step hU_step hv
+      exact .step (hcp3 bi bj hbc) (adj_of_adj4 (ii - 1) hadj) hin (by simp [hair])
+  · by_cases hk2 : k = ii
+    · subst hk2; exact layer_ii_open h1 h2 hinv hin hair
+    · have hl := look_airStep s ii m h1 x y k hin
+      rw [if_neg hk1, if_neg hk2] at hl
+      rw [hl] at hair
+      exact open_preserved h1 h2 (hinv x y k hin (by omega) hair)
+
+end step
+
+/-- background in the top layer is open by definition -/
+theorem top_layer_inv (s : Shape) (m : Tab) : InvAir s (s.nz - 1) m := by
+  intro i j k hin hk hair
+  have hb := hin
+  simp only [inb, Bool.and_eq_true, decide_eq_true_eq] at hb
+  refine .base hin (by simp [hair]) ?_
+  have : k + 1 = s.nz := by omega
+  simp [faces, this]
+
+theorem pass2_inv (s : Shape) : ∀ (ii : Nat) (m : Tab), ii + 1 ≤ s.nz → InvAir s ii m → InvAir s 0 (pass2 s ii m) := by
+  intro ii
+  induction ii with
+  | zero => intro m _ h; exact h
+  | succ ii ih =>
+    intro m h2 hinv
+    rw [pass2_succ]
+    exact ih _ (by omega) (airStep_inv (by omega) h2 hinv)
+
+/-- after the second loop of `connect_holes_and_structures` every background cell is connected through background to the
+top or to a side — whatever the first loop produced -/
+theorem connectPre_open (s : Shape) (m : Tab) : InvAir s 0 (connectPre s m) := by
+  unfold connectPre
+  generalize pass1 s (s.nz - 1) 0 m = x0
+  cases hnz : s.nz with
+  | zero =>
+    intro i j k hin
+    simp [inb, hnz] at hin
+  | succ n =>
+    rw [pass2_succ]
+    have htop := top_layer_inv s (airStep s (n + 1) x0)
+    rw [hnz] at htop
+    exact pass2_inv s n _ (by omega) (by simpa using htop)
+
+/-- removing floating material only turns material into background, so open background stays open … -/
+theorem removeFloating_open_mono (s : Shape) (x : Tab) {i j k : Nat} (h : OpenAir s (look x) i j k) :
+    OpenAir s (look (removeFloating s x)) i j k := by
+  have hair : ∀ i j k, (!look x i j k) = true → (!look (removeFloating s x) i j k) = true := by
+    intro i j k h
+    by_contra hc
+    have h1 : look (removeFloating s x) i j k = true := by simpa using hc
+    have := ((C23_removeFloating_spec s x i j k).mp h1).mask
+    rw [this] at h; exact absurd h (by simp)
+  unfold OpenAir at h ⊢
+  induction h with
+  | base hb hm hs => exact .base hb (hair _ _ _ hm) hs
+  | step _ hadj hb hm ih => exact .step ih hadj hb (hair _ _ _ hm)
+
+/-- … and the removed material itself becomes open background: walking straight up from a removed cell one stays inside
+removed material until the top face or open background is met -/
+theorem removeFloating_inv (s : Shape) (x : Tab) (hx : InvAir s 0 x) : InvAir s 0 (removeFloating s x) := by
+  have key : ∀ (d k : Nat), s.nz - k = d → ∀ i j, inb s i j k = true → look (removeFloating s x) i j k = false →
+      OpenAir s (look (removeFloating s x)) i j k := by
+    intro d
+    induction d with
+    | zero =>
+      intro k hd i j hin _
+      simp only [inb, Bool.and_eq_true, decide_eq_true_eq] at hin; omega
+    | succ d ih =>
+      intro k hd i j hin hair
+      have hb := hin
+      simp only [inb, Bool.and_eq_true, decide_eq_true_eq] at hb
+      by_cases hxair : look x i j k = false
+      · exact removeFloating_open_mono s x (hx i j k hin (Nat.zero_le _) hxair)
+      · have hxm : look x i j k = true := by simpa using hxair
+        by_cases htop : k + 1 = s.nz
+        · exact .base hin (by simp [hair]) (by simp [faces, htop])
+        · have hin' : inb s i j (k + 1) = true := by
+            simp only [inb, Bool.and_eq_true, decide_eq_true_eq]; exact ⟨hb.1, by omega⟩
+          by_cases hup : look (removeFloating s x) i j (k + 1) = false
+          · exact .step (ih (k + 1) (by omega) i j hin' hup) (Or.inr (Or.inr ⟨rfl, rfl, Or.inl rfl⟩)) hin (by simp [hair])
+          · have hupc : Conn s (look x) i j (k + 1) :=
+              (C23_removeFloating_spec s x i j (k + 1)).mp (by simpa using hup)
+            have : Conn s (look x) i j k := .step hupc (Or.inr (Or.inr ⟨rfl, rfl, Or.inl rfl⟩)) hin hxm
+            rw [(C23_removeFloating_spec s x i j k).mpr this] at hair
+            exact absurd hair (by simp)
+  intro i j k hin _ hair
+  exact key (s.nz - k) k rfl i j hin hair
+
+/-- **connect_holes_and_structures leaves no background region enclosed away from the sides and the top**: every
+background cell of the result is connected, through face-adjacent background cells of the result, to the top layer or to
+one of the four side faces — any shape, any input design. -/
+theorem C23_connectHoles_no_enclosed (s : Shape) (m : Tab) (i j k : Nat) (hin : inb s i j k = true)
+    (h : look (connectHoles s m) i j k = false) : OpenAir s (look (connectHoles s m)) i j k :=
+  removeFloating_inv s (connectPre s m) (connectPre_open s m) i j k hin (Nat.zero_le _) h
+
+/-- **second clause of the property, complete**: the result has no floating material and no enclosed background -/
+theorem C23_connectHoles_spec (s : Shape) (m : Tab) (i j k : Nat) (hin : inb s i j k = true) :
+    (look (connectHoles s m) i j k = true → Conn s (look (connectHoles s m)) i j k) ∧
+    (look (connectHoles s m) i j k = false → OpenAir s (look (connectHoles s m)) i j k) :=
+  ⟨C23_connectHoles_no_floating s m i j k, C23_connectHoles_no_enclosed s m i j k hin⟩
+
 /-! ### the pinned tree: `max(shape)` rounds -/
 
 theorem iterN_sound {s : Shape} {m : Tab} {sd : Img} : ∀ (n : Nat) (a : Tab),
@@ -310,6 +670,17 @@ example : look (AsFound.polymerConnectionPadded ⟨3, 3, 1⟩ (tab ⟨3, 3, 1⟩
 example : ¬ Conn ⟨3, 3, 3⟩ (look (tab ⟨3, 3, 3⟩ fun i j k => decide (k = 0) || (decide (i = 1) && decide (j = 1) && decide (k = 2)))) 1 1 2 := by
   rw [← C23_removeFloating_spec]; decide +kernel
 
+/-! the hypotheses / conclusions of `C23_connectHoles_no_enclosed` on concrete designs -/
+
+/-- solid 3×3×3 block with one enclosed background cell in the centre: the cavity is not open before … -/
+def cavity3 : Tab := tab ⟨3, 3, 3⟩ fun i j k => !(decide (i = 1) && decide (j = 1) && decide (k = 1))
+example : look cavity3 1 1 1 = false ∧ look (airConnection ⟨3, 3, 3⟩ cavity3) 1 1 1 = false
+    ∧ look (connectHoles ⟨3, 3, 3⟩ cavity3) 1 1 1 = true := by decide +kernel
+/-- a slab with a pillar: background remains and (by the theorem) is open -/
+def pillar3 : Tab := tab ⟨3, 3, 3⟩ fun i j k => decide (k = 0) || (decide (i = 1) && decide (j = 1))
+example : look (connectHoles ⟨3, 3, 3⟩ pillar3) 0 0 1 = false ∧ look (connectHoles ⟨3, 3, 3⟩ pillar3) 1 1 2 = true := by decide +kernel
+example : OpenAir ⟨3, 3, 3⟩ (look (connectHoles ⟨3, 3, 3⟩ pillar3)) 0 0 1 :=
+  C23_connectHoles_no_enclosed _ _ 0 0 1 (by decide) (by decide +kernel)
 /-- … and a path of two steps is -/
 example : Conn ⟨3, 3, 3⟩ (fun _ _ _ => true) 1 0 1 :=
   .step (.step (.base (i := 0) (j := 0) (k := 0) (by decide) rfl (by decide))
